@@ -239,7 +239,7 @@ pub fn run(ctx: &RunCtx) -> i32 {
         println!("VIOLATION property={} replay={}", ctx.id, path);
         return 1;
     }
-    let (stats, failure) = run_sharded(ctx, "lockstep", ctx.tier.pick(5000, 40_000), strategy, test);
+    let (stats, failure) = run_sharded(ctx, "lockstep", ctx.tier.pick(5000, 200_000), strategy, test);
     write_evidence(ctx, "exploration", RULE, &stats, json!({"regress_replayed": reg.replayed}), &["Linux, scratch filesystem tmpfs/ext4", "timestamps, message texts and other I/O error kinds are excluded by the property", "no seeks on append handles (O_APPEND differs by design)"], failure.is_some() as u32);
     finish(ctx, &stats, &failure, &[("distinct_nontrivial", 100), ("wrong_typed_calls", 200), ("read_scripts", 50)])
 }
